@@ -897,7 +897,7 @@ impl ASN1Type {
 
     fn reassign_type_for_ref(mut self, tlds: &BTreeMap<String, ToplevelDefinition>) -> Self {
         if let Self::ObjectClassField(ref ocf) = self {
-            if let Some(t) = tlds
+            if let Some(mut t) = tlds
                 .iter()
                 .find_map(|(_, c)| {
                     c.is_class_with_name(&ocf.class)
@@ -906,6 +906,16 @@ impl ASN1Type {
                 .flatten()
                 .and_then(|class_field| class_field.ty.clone())
             {
+                // A subtype constraint on the field reference (`CLASS.&id (0..3)`) is applied
+                // serially to the field's type; table constraints have no meaning for it
+                if let Some(constraints) = t.constraints_mut() {
+                    constraints.extend(
+                        ocf.constraints
+                            .iter()
+                            .filter(|c| matches!(c, Constraint::Subtype(_)))
+                            .cloned(),
+                    );
+                }
                 self = t;
             }
         }
